@@ -169,7 +169,9 @@ impl Bytes {
     }
 
     pub fn to_formal_string(&self) -> String {
-        pybytes_repr(&self._b, true, false)
+        // Escape backslashes too: the reader treats a backslash inside a
+        // quoted string as an escape, so a bare one would not read back.
+        pybytes_repr(&self._b, true, true)
     }
 
     pub fn pybytes(&self) -> String {
